@@ -189,7 +189,25 @@ def run_sessions(plan, tr):
         # consistency is judged on the views themselves: every participant holds, for every sender, the nonce points that
         # sender currently has the secrets for (a re-drawn nonce that happens to equal the old one changes nothing)
         truth = {p.idx: (p.nonce_points[0].sec(), p.nonce_points[1].sec()) for p in parties}
-        consistent = all(p.view == truth for p in parties)
+
+        def same_points(view):
+            # compare the points the participant will actually compute with (a flipped bit in the SEC prefix byte can still decode
+            # to the same point in this library), not the bytes
+            for s_, pair in truth.items():
+                if s_ not in view:
+                    return False
+                for a_, b_ in zip(view[s_], pair):
+                    if a_ == b_:
+                        continue
+                    try:
+                        pa, pb = S256Point.parse(a_), S256Point.parse(b_)
+                    except Exception:
+                        return False
+                    if pa != pb:
+                        return False
+            return True
+
+        consistent = all(same_points(p.view) for p in parties)
         # ---- round 2: partial signatures
         psigs = {}
         r_of = {}
